@@ -41,8 +41,7 @@ def resolveImportVarConflicts (vars : List Var) (quals : List Str) : List Var :=
     | some i => renameAt vs i (· ++ moqParamSuffix)
     | none => vs) vars
 
-/-- the `for n := 1; ; n++` loop of `resolveVarNameConflict`; `none` = the nil-pointer
-    dereference `conflict.Name += "1"` (no variable is called `suggested`), or out of fuel. -/
+/-- the `for n := 1; ; n++` loop of `resolveVarNameConflict`; `none` = out of fuel. -/
 def resolveVarNameConflict (sc : Scope) (suggested : Str) : Nat → Nat → Option (Scope × Str)
   | 0, _ => none
   | fuel + 1, n =>
@@ -50,7 +49,7 @@ def resolveVarNameConflict (sc : Scope) (suggested : Str) : Nat → Nat → Opti
       resolveVarNameConflict sc suggested fuel (n + 1)
     else if n = 1 then
       match searchVar sc.vars suggested with
-      | none => none
+      | none => some (sc, suggested ++ Str.ofNat 1)     -- nothing left to rename (guard added by the fix of F-18)
       | some i =>
         some ({ vars := renameAt sc.vars i (· ++ s%"1"),
                 conflicted := if suggested ∈ sc.conflicted then sc.conflicted
